@@ -446,10 +446,7 @@ fn build(p: &P, env: &Env) -> AnyView {
             // per-request signal (arena item) instead.
             on_cleanup(move || {
                 let sig = env.sig.try_get_untracked();
-                // since 0e1d320 (`Owner::unset` drops the owner after releasing the thread-local borrow) a cleanup may
-                // look at OWNER: what context does it find?
-                let tag = use_context::<Tag>().map(|t| (t.req, t.scope));
-                LOG.lock().unwrap().push(Rec { me: env.me, leaf: id, tag, sig, did: None, cleanup: true, arena_read: None });
+                LOG.lock().unwrap().push(Rec { me: env.me, leaf: id, tag: None, sig, did: None, cleanup: true, arena_read: None });
             });
             ().into_any()
         }
